@@ -101,7 +101,7 @@ func (wd *world) planFault(r *gen.Rng) {
 func demuxCase(w *run.Worker) func(c *run.Case) {
 	ctx := context.Background()
 	return func(c *run.Case) {
-		r := caseRng(c, w)
+		r := c.Rng
 		nStores := r.Range(1, 4)
 		wd := newWorld(c, w, nStores)
 		nPrefixes := r.Pick(0, 1, 1, 2, 2, 3, 3, 4, 5, 6)
@@ -208,7 +208,7 @@ func demuxCase(w *run.Worker) func(c *run.Case) {
 func hierCase(w *run.Worker) func(c *run.Case) {
 	ctx := context.Background()
 	return func(c *run.Case) {
-		r := caseRng(c, w)
+		r := c.Rng
 		wd := newWorld(c, w, 1)
 		wd.noDemux = true
 		if r.Chance(1, 4) {
